@@ -17,6 +17,7 @@ import (
 	tmproto "github.com/cometbft/cometbft/proto/tendermint/types"
 	sdk "github.com/cosmos/cosmos-sdk/types"
 	paramsproposal "github.com/cosmos/cosmos-sdk/x/params/types/proposal"
+	stakingtypes "github.com/cosmos/cosmos-sdk/x/staking/types"
 	upgradetypes "github.com/cosmos/cosmos-sdk/x/upgrade/types"
 
 	"github.com/kava-labs/kava/app"
@@ -24,8 +25,11 @@ import (
 	bep3types "github.com/kava-labs/kava/x/bep3/types"
 	cdptypes "github.com/kava-labs/kava/x/cdp/types"
 	committeetypes "github.com/kava-labs/kava/x/committee/types"
+	earntypes "github.com/kava-labs/kava/x/earn/types"
 	hardtypes "github.com/kava-labs/kava/x/hard/types"
+	incentivetypes "github.com/kava-labs/kava/x/incentive/types"
 	issuancetypes "github.com/kava-labs/kava/x/issuance/types"
+	liquidtypes "github.com/kava-labs/kava/x/liquid/types"
 	pricefeedtypes "github.com/kava-labs/kava/x/pricefeed/types"
 	"kavaverif/drivers/world"
 )
@@ -87,6 +91,9 @@ func (s *sc) block(gap time.Duration, needOK bool, txs ...[]byte) *finding {
 		return s.fail("invariant-broken:"+route, msg)
 	}
 	probe := world.TakeProbe(s.A, s.h, s.t)
+	if what, msg := checkStoredParams(s.w, s.A, s.h, s.t, s.t.Add(gap)); what != "" {
+		return s.fail(what, msg)
+	}
 	s.h++
 	s.t = s.t.Add(gap)
 	if _, p := world.BeginC(s.A, s.h, s.t, s.cnt); p != "" {
@@ -673,15 +680,182 @@ func scenarioBep3Expiry(seed uint64, cnt *Counters) *finding {
 	return nil
 }
 
+// scenarioEarnBkavaAllBurned: an incentive earn reward period for "bkava" is in force; users
+// liquid-stake to the validator, deposit the derivative in the earn bkava vault for a few blocks
+// (incentive stores reward indexes for that derivative denom), withdraw everything and burn ALL
+// derivative of the validator: the validator still exists, the liquid module account holds no
+// delegation to it any more, and incentive still knows the vault.  The following begin blockers
+// must complete.
+func scenarioEarnBkavaAllBurned(seed uint64, cnt *Counters) *finding {
+	s, r := newSc(seed, 11, cnt, func(cfg *world.Config, r *Rng) {
+		cfg.Wide.EarnVaults = []string{"usdx:hard", "bkava:savings", "busd:savings"}
+		cfg.Wide.SavingsDenoms = []string{"ukava", "bkava", "busd"}
+		cfg.Wide.BkavaEarnRate = 1 + r.Int63n(200_000)
+		cfg.Wide.IncentiveStart = []int64{-86400, 0}[r.Intn(2)]
+		cfg.Wide.IncentiveEnds[6] = []int64{400 * 86400, 30 * 86400}[r.Intn(2)]
+	})
+	val := s.w.ValAddr
+	bk := "bkava-" + val.String()
+	n := 1 + r.Intn(3) // users 0..n-1 liquid-stake; user n-1 may keep its derivative outside earn
+	outside := n > 1 && r.Chance(1, 2)
+	gap := func() time.Duration {
+		return []time.Duration{time.Second, 6 * time.Second, time.Minute, time.Hour, 26 * time.Hour}[r.Intn(5)] + time.Duration(r.Intn(1000))*time.Millisecond
+	}
+	var txs [][]byte
+	stake := make([]int64, n)
+	for u := 0; u < n; u++ {
+		stake[u] = int64(1+r.Intn(3000)) * 1_000_000 // whole shares of the genesis validator (10^6 ukava per share)
+		s.note("h%d user%d delegates %dukava", s.h, u, stake[u])
+		txs = append(txs, s.sign(u, stakingtypes.NewMsgDelegate(s.w.Addrs[u], val, sdk.NewInt64Coin("ukava", stake[u]))))
+	}
+	if f := s.block(gap(), true, txs...); f != nil {
+		return f
+	}
+	txs = nil
+	for u := 0; u < n; u++ {
+		m := liquidtypes.NewMsgMintDerivative(s.w.Addrs[u], val, sdk.NewInt64Coin("ukava", stake[u]))
+		s.note("h%d user%d mints derivative for %dukava", s.h, u, stake[u])
+		txs = append(txs, s.sign(u, &m))
+	}
+	if f := s.block(gap(), true, txs...); f != nil {
+		return f
+	}
+	txs = nil
+	for u := 0; u < n; u++ {
+		bal := s.A.GetBankKeeper().GetBalance(s.ctx(), s.w.Addrs[u], bk)
+		if !bal.IsPositive() {
+			return s.fail("scenario-setup-failed", fmt.Sprintf("user%d holds no %s after minting", u, bk))
+		}
+		if outside && u == n-1 {
+			continue
+		}
+		s.note("h%d user%d deposits %s in the earn bkava vault", s.h, u, bal)
+		txs = append(txs, s.sign(u, earntypes.NewMsgDeposit(s.w.Addrs[u].String(), bal, earntypes.STRATEGY_TYPE_SAVINGS)))
+	}
+	if f := s.block(gap(), true, txs...); f != nil {
+		return f
+	}
+	for i, k := 0, 2+r.Intn(3); i < k; i++ { // reward indexes for the derivative denom are stored
+		var t2 [][]byte
+		if i == 1 && r.Chance(1, 2) {
+			m := incentivetypes.NewMsgClaimEarnReward(s.w.Addrs[0].String(), incentivetypes.Selections{incentivetypes.NewSelection("ukava", "large")})
+			t2 = append(t2, s.sign(0, &m))
+		}
+		if f := s.block(gap(), false, t2...); f != nil {
+			return f
+		}
+	}
+	if _, found := s.A.GetIncentiveKeeper().GetEarnRewardIndexes(s.ctx(), bk); found {
+		s.cnt.Inc("branch:incentive-earn-indexes-for-derivative-vault")
+	}
+	txs = nil
+	for u := 0; u < n; u++ {
+		ek := s.A.GetEarnKeeper()
+		if v, err := ek.GetVaultAccountValue(s.ctx(), bk, s.w.Addrs[u]); err == nil && v.Amount.IsPositive() {
+			s.note("h%d user%d withdraws %s from earn", s.h, u, v)
+			txs = append(txs, s.sign(u, earntypes.NewMsgWithdraw(s.w.Addrs[u].String(), v, earntypes.STRATEGY_TYPE_SAVINGS)))
+		}
+	}
+	if f := s.block(gap(), true, txs...); f != nil {
+		return f
+	}
+	// burn everything, in one block or one user per block
+	oneBlock := r.Chance(1, 2)
+	txs = nil
+	for u := 0; u < n; u++ {
+		bal := s.A.GetBankKeeper().GetBalance(s.ctx(), s.w.Addrs[u], bk)
+		if !bal.IsPositive() {
+			continue
+		}
+		m := liquidtypes.NewMsgBurnDerivative(s.w.Addrs[u], val, bal)
+		s.note("h%d user%d burns %s", s.h, u, bal)
+		txs = append(txs, s.sign(u, &m))
+		if !oneBlock {
+			if f := s.block(gap(), true, txs...); f != nil {
+				return f
+			}
+			txs = nil
+		}
+	}
+	if len(txs) > 0 {
+		if f := s.block(gap(), true, txs...); f != nil {
+			return f
+		}
+	}
+	if sup := s.A.GetBankKeeper().GetSupply(s.ctx(), bk); !sup.IsZero() {
+		return s.fail("scenario-setup-failed", "derivative supply left after burning everything: "+sup.String())
+	}
+	liq := s.A.GetAccountKeeper().GetModuleAddress(liquidtypes.ModuleAccountName)
+	if _, found := s.A.GetStakingKeeper().GetDelegation(s.ctx(), liq, val); !found {
+		s.cnt.Inc("branch:liquid-module-delegation-gone-validator-stays")
+	}
+	for i := 0; i < 3; i++ {
+		if f := s.block(gap(), false); f != nil {
+			return f
+		}
+	}
+	return nil
+}
+
+// scenarioMalformedParams: every entry of world.Malformations (one malformed field of one
+// parameter key at a time, for every module whose parameters the committee can change) is
+// submitted to the params committee and voted for in the same block.  Expected: the submission
+// is refused by the dry run (or the proposal is closed as invalid); the malformed set is never
+// stored and no block halts.  The entries are visited in a PRNG-chosen rotation, with ordinary
+// traffic in between so that the blockers have state to work on.
+func scenarioMalformedParams(seed uint64, cnt *Counters) *finding {
+	s, r := newSc(seed, 12, cnt, func(cfg *world.Config, r *Rng) {
+		cfg.Wide.ProposalDurSec = 7 * 86400
+		cfg.Wide.IncentiveStart = []int64{-86400, 0}[r.Intn(2)]
+	})
+	for i := 0; i < 4; i++ { // ordinary traffic first: positions for the blockers to work on
+		s.w.Height, s.w.Time = s.h, s.t
+		txs, _ := s.w.GenBlockTxs(r, s.A, 6)
+		if f := s.block(time.Duration(1+r.Intn(600))*time.Second, false, txs...); f != nil {
+			return f
+		}
+	}
+	s.log = nil
+	n := len(world.Malformations)
+	off := r.Intn(n)
+	for k := 0; k < n; k++ {
+		m := world.Malformations[(k+off)%n]
+		ch := m.Build(s.w, s.A, s.ctx())
+		if len(ch) == 0 {
+			continue
+		}
+		s.w.RecordMalformed(m, ch)
+		txs, err := s.proposeAndVote(paramsproposal.NewParameterChangeProposal("p", m.Module+" "+m.What, ch))
+		if err != nil {
+			return s.fail("scenario-setup-failed", err.Error())
+		}
+		before := len(s.log)
+		s.note("h%d committee proposal with a malformed %s parameter: %s", s.h, m.Module, m.What)
+		f := s.block(time.Duration(1+r.Intn(3600))*time.Second, false, txs...)
+		if f != nil {
+			return f
+		}
+		if len(s.log) > before+1 { // the submission was refused (its failure was noted)
+			s.cnt.Inc("malformed-param-change-refused")
+			s.log = s.log[:before] // keep the log short: only accepted submissions matter
+		} else {
+			s.cnt.Inc("malformed-param-change-ACCEPTED:" + m.Module + ":" + m.What)
+		}
+	}
+	return s.block(time.Minute, false)
+}
+
 var scenarios = map[string]func(uint64, *Counters) *finding{
-	"committee-stale-upgrade-proposal":      scenarioStaleCommitteeProposal,
-	"cdp-depositor-withdraws-all":           scenarioCdpDepositorWithdrawsAll,
-	"issuance-seize-locked-vesting":         scenarioIssuanceSeizeLocked,
-	"cdp-two-deposits-odd-debt":             scenarioCdpTwoDeposits,
-	"cdp-surplus-lot-above-threshold":       scenarioSurplus(true),
-	"cdp-surplus-lot-below-threshold":       scenarioSurplus(false),
-	"cdp-debt-past-threshold":               scenarioDebt,
-	"auction-both-phases-near-max-end-time": scenarioAuctionPhases,
-	"hard-market-removed-and-readded":       scenarioHardReadd,
-	"bep3-claims-and-expiry-in-one-block":   scenarioBep3Expiry,
+	"committee-malformed-parameter-changes":  scenarioMalformedParams,
+	"earn-bkava-vault-all-derivative-burned": scenarioEarnBkavaAllBurned,
+	"committee-stale-upgrade-proposal":       scenarioStaleCommitteeProposal,
+	"cdp-depositor-withdraws-all":            scenarioCdpDepositorWithdrawsAll,
+	"issuance-seize-locked-vesting":          scenarioIssuanceSeizeLocked,
+	"cdp-two-deposits-odd-debt":              scenarioCdpTwoDeposits,
+	"cdp-surplus-lot-above-threshold":        scenarioSurplus(true),
+	"cdp-surplus-lot-below-threshold":        scenarioSurplus(false),
+	"cdp-debt-past-threshold":                scenarioDebt,
+	"auction-both-phases-near-max-end-time":  scenarioAuctionPhases,
+	"hard-market-removed-and-readded":        scenarioHardReadd,
+	"bep3-claims-and-expiry-in-one-block":    scenarioBep3Expiry,
 }
